@@ -1110,12 +1110,19 @@ fn normalize_specifier(specifier: VersionSpecifier) -> VersionSpecifier {
     // distinction between versions like `3.9` and `3.9.0`. Otherwise, their output would depend on
     // which form was added to the global marker interner first.
     //
-    // Note that we cannot strip trailing `0`s for star equality, as `==3.0.*` is different from `==3.*`.
-    if !operator.is_star() {
-        if let Some(end) = release.iter().rposition(|segment| *segment != 0) {
-            if end > 0 {
-                release = &release[..=end];
-            }
+    // Note that we cannot strip trailing `0`s for star equality, as `==3.0.*` is different from `==3.*`,
+    // nor for the compatible release operator, as `~=3.7.0` is different from `~=3.7`.
+    //
+    // We keep at least two segments, so `3.0.0` and `3.0` are both normalized to `3.0` (and not
+    // `3`); otherwise `python_version >= '3.0.0'` would be read as a three-segment version.
+    if !operator.is_star() && operator != Operator::TildeEqual {
+        let end = release
+            .iter()
+            .rposition(|segment| *segment != 0)
+            .unwrap_or(0)
+            .max(1);
+        if end < release.len() {
+            release = &release[..=end];
         }
     }
 
